@@ -428,6 +428,14 @@ impl Pipeline {
 //@fn pipeline::Pipeline::new vis=pub
     ensures r.cmds@ == seq![cmd1, cmd2], r.stdin is None, r.stdout is None, r.stderr_file.is_none(), r.stdin_data.is_none(), //[C13]
 //@end
+//@fn pipeline::Pipeline::from_exec_iter vis=pub
+//@sreplace 1 /I: IntoIterator<Item = Exec>,/ => /I: ExecSource,/
+//@rreplace 1 /iterable\.into_iter\(\)\.collect\(\)/ => /collect_execs(iterable)/
+//@rreplace 1 /panic!\("iterator needs to contain at least two \(2\) elements"\)/ => /documented_panic()/
+    requires iterable.items().len() >= 2,     // documented panic
+    // the stages are the iterator's elements in the iterator's order, and nothing is redirected yet
+    ensures r.cmds@ == iterable.items(), r.stdin is None, r.stdout is None, r.stderr_file.is_none(), r.stdin_data.is_none(), //[C13]
+//@end
 //@fn pipeline::Pipeline::stdin vis=pub
 //@selfmut
 //@sreplace 1 /pub fn stdin\(/ => /pub fn stdin<T: Into<InputRedirection>>(/
